@@ -411,6 +411,9 @@ class Run:
             self.samples.append(case)
 
     def prove(self):
+        import regen
+        for k, v in regen.regen(["GenPins"]).items():
+            self.corr_breaks.append({"what": "translator %s failed (fail-closed)" % k, "case": None, "error": v})
         self.proof = check_property_file(self.pid)
         if self.proof["errors"]:
             self.corr_breaks.append({
